@@ -23,7 +23,7 @@ def plan(ctx):
                                 {"R": [["x"], ["x", "y"], ["a", "x"]], "G": [["z"], ["b", "z", "z"]]},
                                 rem={"R": [["d", "a"], ["G"], ["x"]], "G": [["c", "b"], ["z"]]} if q else
                                 {"R": [["a"], ["d", "a"], ["G"], ["x"]], "G": [["b"], ["c", "b"], ["z"]]}))]
-    sim = [("big", c01.plan(ctx)["sim"][0][1], 800 if q else 30000)]
+    sim = [("big", c01.plan(ctx)["sim"][0][1], 800 if q else 90000)]
     return dict(mc=mc, exh=exh, sim=sim)
 
 
